@@ -254,9 +254,14 @@ def explore(fn, cfg, opts):
                solver_used={}, distinct=set(), inputs=[], trivially_true=0)
     pending = [[]]
     witnessed = {}
-    max_viol = int(opts.get("max_violations", 6))
+    max_viol = int(opts.get("max_violations", 3))
     unconfirmed = unknowns = 0
+    stopfile = opts.get("_stopfile")
     while pending:
+        if stopfile and os.path.exists(stopfile):
+            res["stopped_early"] = "the run's verdict is already settled by violations elsewhere"
+            res["not_run"] = True
+            break
         if len(res["violations"]) >= max_viol or unconfirmed >= max_viol * 2 or unknowns >= 3:
             res["stopped_early"] = "violation budget reached; remaining paths of this configuration not explored"
             break
@@ -432,6 +437,20 @@ def _profile(frame, event, arg):
             _TRACE["funcs"].add(f"{fn[len(REPO) + 1:]}:{frame.f_code.co_qualname}")
 
 
+def _worker_init():
+    """Workers die with the driver (a killed or timed-out check must not leave solver processes behind) and cap z3's memory."""
+    try:
+        import ctypes
+        ctypes.CDLL("libc.so.6", use_errno=True).prctl(1, int(signal.SIGKILL), 0, 0, 0)      # PR_SET_PDEATHSIG
+    except Exception:
+        pass
+    try:
+        import z3
+        z3.set_param("memory_max_size", int(os.environ.get("VERIF_Z3_MEM_MB", "3000")))
+    except Exception:
+        pass
+
+
 def run_chunk(prop, tier, check_name, idxs, trace_first, stopfile=None):
     """Worker entry: explore a chunk of configurations of one check."""
     mod = _load(prop)
@@ -445,11 +464,21 @@ def run_chunk(prop, tier, check_name, idxs, trace_first, stopfile=None):
             outs.append({"check": chk.name, "idx": idx, "cfg": _js(chk.configs[idx]), "not_run": True, "violations": [], "inconclusive": [],
                          "paths": 0, "obligations": 0, "discharged": 0})
             continue
-        outs.append(run_one(chk, idx, trace_first and n == 0))
+        outs.append(run_one(chk, idx, trace_first and n == 0, stopfile))
+        if stopfile and outs[-1].get("violations"):
+            # count violations outside the known-findings file across workers; the first worker to see the limit raises the stop flag
+            known = load_known()
+            nv = sum(1 for v in outs[-1]["violations"] if match_known(known, prop, chk.name, v) is None)
+            if nv:
+                with open(stopfile + ".n", "a") as f:
+                    f.write("x" * nv)
+                limit = int(os.environ.get("VERIF_FAILFAST", "24") or 0)
+                if limit and os.path.getsize(stopfile + ".n") >= limit and not os.path.exists(stopfile):
+                    open(stopfile, "w").close()
     return outs
 
 
-def run_one(chk, idx, trace):
+def run_one(chk, idx, trace, stopfile=None):
     t0 = time.time()
     cfg = chk.configs[idx]
     out = {"check": chk.name, "idx": idx, "cfg": _js(cfg)}
@@ -460,7 +489,7 @@ def run_one(chk, idx, trace):
             _TRACE["funcs"].clear()
             sys.setprofile(_profile)
         try:
-            res = explore(chk.fn, cfg, chk.opts)
+            res = explore(chk.fn, cfg, dict(chk.opts, _stopfile=stopfile) if stopfile else chk.opts)
         finally:
             sys.setprofile(None)
             signal.alarm(0)
@@ -530,7 +559,7 @@ def main(argv=None):
     jobs = max(1, min(args.jobs, len(tasks)))
     # fail fast: once this many violations outside the known-findings file are confirmed the verdict is settled (exit 1) and the
     # remaining configurations are not explored (a broken tree otherwise costs hours of satisfiable non-linear queries)
-    failfast = int(os.environ.get("VERIF_FAILFAST", "40") or 0)
+    failfast = int(os.environ.get("VERIF_FAILFAST", "24") or 0)
     import tempfile
     stopfile = os.path.join(tempfile.gettempdir(), f"symtorch_stop_{os.getpid()}_{int(t0)}")
     known = load_known()
@@ -550,7 +579,7 @@ def main(argv=None):
             note(rs)
     else:
         ctx = mp.get_context("spawn")
-        with cf.ProcessPoolExecutor(max_workers=jobs, mp_context=ctx) as ex:
+        with cf.ProcessPoolExecutor(max_workers=jobs, mp_context=ctx, initializer=_worker_init) as ex:
             futs = {ex.submit(run_chunk, *t, stopfile): t for t in tasks}
             for f in cf.as_completed(futs):
                 try:
@@ -561,10 +590,11 @@ def main(argv=None):
                     t = futs[f]
                     results.append({"check": t[2], "idx": -1, "cfg": {"chunk": list(t[3])[:5]}, "inconclusive": [f"worker crashed: {exn!r}"],
                                     "violations": [], "paths": 0, "obligations": 0, "discharged": 0})
-    try:
-        os.remove(stopfile)
-    except OSError:
-        pass
+    for f_ in (stopfile, stopfile + ".n"):
+        try:
+            os.remove(f_)
+        except OSError:
+            pass
     return summarize(mod, prop, args, seed, checks, results, t0)
 
 
